@@ -4,7 +4,7 @@ use crate::gen;
 use crate::model::dur::*;
 use crate::model::scale::*;
 use crate::props::c05::ep;
-use hifitime::{TimeScale, TimeSeries};
+use hifitime::{Epoch, TimeScale, TimeSeries};
 
 pub fn meta() -> Meta {
     Meta {
@@ -30,7 +30,29 @@ pub fn check(rep: &mut Rep, w: &World, sc: i128, ss: TimeScale, ec: i128, es: Ti
         None => return,
     };
     let span = ec - start_in_e;
-    if span < 0 || step <= 0 {
+    if step <= 0 {
+        return;
+    }
+    if span < 0 {
+        // an end before the start: no k satisfies k x step < (or <=) end - start, so the series is empty, whoever asks
+        if dyn_of(es, ss) && span > -200 {
+            return; // (ET / TDB bounds: the sign of a difference within the conversion tolerance is open)
+        }
+        rep.class("series/end-before-start");
+        rep.nt(h64(&[55, sc as u64, ec as u64, step as u64, incl as u64, scale_idx(ss), scale_idx(es)]));
+        let (start, end, stp) = (ep(sc, ss), ep(ec, es), mk(step));
+        let mk_ts = move || if incl { TimeSeries::inclusive(start, end, stp) } else { TimeSeries::exclusive(start, end, stp) };
+        match guard(|| (mk_ts().next().is_some(), consumers(&mk_ts, &[]))) {
+            Err(p) => rep.fail(&format!("series/panic/{}", p.class()), None, || format!("series with end {} ns before start panicked: {} at {}", -span, p.msg, p.loc)),
+            Ok((some, c)) => {
+                if some {
+                    rep.fail("series/count", None, || format!("TimeSeries::{}(({}, {:?}), ({}, {:?}), {} ns): the end is {} ns before the start, yet next() yields an item", if incl { "inclusive" } else { "exclusive" }, sc, ss, ec, es, step, -span));
+                }
+                if let Some(msg) = c {
+                    rep.fail("series/consumer", None, || format!("TimeSeries::{}(({}, {:?}), ({}, {:?}), {} ns), end {} ns before start: {}", if incl { "inclusive" } else { "exclusive" }, sc, ss, ec, es, step, -span, msg));
+                }
+            }
+        }
         return;
     }
     let dyn_mixed = es != ss && (is_dyn(es) || is_dyn(ss));
@@ -169,6 +191,24 @@ pub fn check(rep: &mut Rep, w: &World, sc: i128, ss: TimeScale, ec: i128, es: Ti
                 }
             }
         }
+        // every consumer of the Iterator trait, from every position (fresh, after k items, after the end): a series that
+        // overrides one of them (fold, count, last, max, nth ...) or keeps state beside its index shows here
+        if adapt.is_none() && first_bad.is_none() && n as i128 == want_n && (n <= 12 || (n <= 80 && (sc ^ ec) & 7 == 0)) {
+            let all: Vec<i128> = (0..n).map(|j| sc + j as i128 * step).collect();
+            for k in [0usize, 1, n / 2, n.saturating_sub(1), n, n + 2] {
+                let mk_pos = || {
+                    let mut it = if incl { TimeSeries::inclusive(start, end, stp) } else { TimeSeries::exclusive(start, end, stp) };
+                    for _ in 0..k {
+                        let _ = it.next();
+                    }
+                    it
+                };
+                if let Some(msg) = consumers(&mk_pos, &all[k.min(n)..]) {
+                    adapt = Some(format!("after {k} next() calls: {msg}"));
+                    break;
+                }
+            }
+        }
         (n, first_bad, after, n2, n3, adapt)
     });
     match r {
@@ -201,6 +241,78 @@ pub fn check(rep: &mut Rep, w: &World, sc: i128, ss: TimeScale, ec: i128, es: Ti
             }
         }
     }
+}
+
+fn dyn_of(a: TimeScale, b: TimeScale) -> bool {
+    a != b && (is_dyn(a) || is_dyn(b))
+}
+
+/// Every way the Iterator trait hands out the remaining items of a positioned series must see exactly `want` (counts of
+/// the items, in order). Returns a description of the first consumer that does not.
+fn consumers(mk_it: &dyn Fn() -> TimeSeries, want: &[i128]) -> Option<String> {
+    let c = |e: Epoch| count_d(e.duration);
+    let n = want.len();
+    macro_rules! expect {
+        ($name:expr, $got:expr, $want:expr) => {{
+            let (g, w) = ($got, $want);
+            if g != w {
+                return Some(format!("{} = {:?}, want {:?} ({} items left)", $name, g, w, n));
+            }
+        }};
+    }
+    expect!("count()", mk_it().count(), n);
+    expect!("last()", mk_it().last().map(c), want.last().copied());
+    expect!("max()", mk_it().max().map(c), want.last().copied());
+    expect!("min()", mk_it().min().map(c), want.first().copied());
+    expect!("max_by_key(duration)", mk_it().max_by_key(|e| count_d(e.duration)).map(c), want.last().copied());
+    expect!("min_by(cmp)", mk_it().min_by(|a, b| a.cmp(b)).map(c), want.first().copied());
+    expect!("fold", mk_it().fold(Vec::new(), |mut v, e| { v.push(c(e)); v }), want.to_vec());
+    let mut v = vec![];
+    mk_it().for_each(|e| v.push(c(e)));
+    expect!("for_each", v, want.to_vec());
+    let mut v: Vec<Epoch> = vec![];
+    v.extend(mk_it());
+    expect!("Vec::extend", v.into_iter().map(c).collect::<Vec<_>>(), want.to_vec());
+    expect!("collect", mk_it().map(c).collect::<Vec<_>>(), want.to_vec());
+    expect!("filter(true).count()", mk_it().filter(|_| true).count(), n);
+    expect!("find(false)", mk_it().find(|_| false).map(c), None);
+    expect!("any(false)", mk_it().any(|_| false), false);
+    expect!("all(true)", mk_it().all(|_| true), true);
+    if let Some(&l) = want.last() {
+        expect!("position(last)", mk_it().position(|e| c(e) == l), Some(n - 1));
+        expect!("find(last)", mk_it().find(|e| c(*e) == l).map(c), Some(l));
+    }
+    expect!("zip(0..)", mk_it().zip(0usize..).map(|(e, i)| (i, c(e))).collect::<Vec<_>>(), want.iter().copied().enumerate().collect::<Vec<_>>());
+    expect!("chain(empty)", mk_it().chain(std::iter::empty()).map(c).collect::<Vec<_>>(), want.to_vec());
+    expect!("enumerate().last()", mk_it().enumerate().last().map(|(i, e)| (i, c(e))), want.last().map(|&l| (n - 1, l)));
+    let mut pk = mk_it().peekable();
+    expect!("peekable().peek()", pk.peek().map(|e| c(*e)), want.first().copied());
+    expect!("peekable() rest", pk.map(c).collect::<Vec<_>>(), want.to_vec());
+    expect!("fuse()", mk_it().fuse().map(c).collect::<Vec<_>>(), want.to_vec());
+    let mut it = mk_it();
+    let head: Vec<i128> = it.by_ref().take(2).map(c).collect();
+    expect!("by_ref().take(2)", head, want.iter().take(2).copied().collect::<Vec<_>>());
+    expect!("count() after by_ref().take(2)", it.count(), n.saturating_sub(2));
+    let it = mk_it();
+    let cl = it.clone();
+    expect!("clone of the positioned series", cl.map(c).collect::<Vec<_>>(), want.to_vec());
+    expect!("the series after being cloned", it.map(c).collect::<Vec<_>>(), want.to_vec());
+    expect!("Iterator::eq with itself", mk_it().eq(mk_it()), true);
+    expect!("take_while(true)", mk_it().take_while(|_| true).count(), n);
+    expect!("skip_while(false)", mk_it().skip_while(|_| false).count(), n);
+    expect!("map_while(Some)", mk_it().map_while(Some).count(), n);
+    expect!("partition", mk_it().partition::<Vec<Epoch>, _>(|_| true).0.len(), n);
+    expect!("reduce(max)", mk_it().reduce(|a, b| if b > a { b } else { a }).map(c), want.last().copied());
+    expect!("try_for_each", { let mut k = 0usize; let _ = mk_it().try_for_each(|_| { k += 1; Some(()) }); k }, n);
+    // after the end, the end stays the end for every consumer
+    let mut it = mk_it();
+    for _ in it.by_ref() {}
+    expect!("count() after exhaustion", it.clone().count(), 0usize);
+    expect!("max() after exhaustion", it.clone().max().map(c), None);
+    expect!("last() after exhaustion", it.clone().last().map(c), None);
+    expect!("fold after exhaustion", it.clone().fold(0usize, |a, _| a + 1), 0usize);
+    expect!("next() after exhaustion", it.next().map(c), None);
+    None
 }
 
 pub fn run(cfg: &Cfg, rep: &mut Rep) {
@@ -283,6 +395,20 @@ pub fn run(cfg: &Cfg, rep: &mut Rep) {
         if k % 64 == 0 {
             // end before start / equal to start: empty or single-item series
             check(rep, &w, sc, ss, sc, ss, step, incl, &[]);
+        }
+        if k % 16 == 3 {
+            // an end before the start by less than a step, by a step, by more (same or another scale)
+            let back = match r.below(4) {
+                0 => 1,
+                1 => r.range_i128(1, step),
+                2 => step,
+                _ => step * r.range_i64(1, 20) as i128 + r.range_i128(0, step - 1),
+            };
+            if es == ss {
+                check(rep, &w, sc, ss, sc - back, ss, step, incl, &[]);
+            } else if let Some(x) = w.from_tai(w.to_tai(sc, ss), es) {
+                check(rep, &w, sc, ss, x - back, es, step, incl, &[]);
+            }
         }
     }
     // a few long series (thorough only): millions of items, ns / odd steps, across a leap second
